@@ -12,12 +12,22 @@ TECHNIQUE = "runtime monitoring: Nnf/Dnf outputs judged by reference evaluation 
 LEVEL_TEXT = (
     "Every get_nnf_expression / get_dnf_expression result on generated Boolean expressions (Boolean fluents, object equalities, numeric comparisons, "
     "constant-only atoms, implications and equivalences) is evaluated against its input under all interpretations of the small finite domains (sampled "
-    "when larger) by the reference evaluator, and its shape is checked (NNF: no Implies/Iff, Not only above atoms; DNF: disjunction of conjunctions of literals)."
+    "when larger) by the reference evaluator, and its shape is checked (NNF: no Implies/Iff, Not only above atoms; DNF: disjunction of conjunctions of literals). "
+    "In the thorough tier the repository's own test-suite is re-run with pass-through wrappers on Nnf.get_nnf_expression / Dnf.get_dnf_expression: "
+    "same shape predicates, truth values compared under 24 random first-order interpretations per call."
 )
-LEVEL_NOTE = "Trusted: vk/ref/evalx.py. Quantifier-free expressions only, as in the property quantifier (the converters treat quantified sub-formulae as opaque atoms)."
+LEVEL_NOTE = (
+    "Trusted: vk/ref/evalx.py. Quantifier-free expressions only, as in the property quantifier (the converters treat quantified sub-formulae as opaque atoms). "
+    "Suite monitor (vk/mon/universal.install_dnf): trusted are also pytest/xdist and the monkey-patched wrappers; the inputs there are lifted (fluents applied to "
+    "action parameters), so an interpretation gives every parameter / free variable a value of its type (objects occurring in the expression plus two fresh "
+    "elements per user type) and every fluent a lazily filled random function table; inputs with quantifiers, timing / agent-dot / trajectory / "
+    "interpreted-function nodes or two fluents of one name are counted as unjudged; each distinct (converter, input) is judged once per process."
+)
 RULE = (
     "cases = Boolean expression recipes (<= ~9 connectives) over a generated world with planted constant-only atoms (1<=2, 3<2, o==o); evaluations = "
-    "(expression, converter) pairs; distinct_nontrivial = distinct expressions containing a constant-only atom or an Iff/Implies."
+    "(expression, converter) pairs; distinct_nontrivial = distinct expressions containing a constant-only atom or an Iff/Implies. Thorough tier only: one run "
+    "of unified_planning/test under M-dnf; one evaluation = one distinct converter call judged (suite:M-dnf:judged); witnesses carry the test id (\"suite\": true) "
+    "and are replayed by re-running that test file under the monitor; inconclusive if the suite ran and fewer than 100 calls were judged."
 )
 ASSUMPTIONS = ["arithmetic atoms are interpreted arithmetically (not as independent propositional atoms)"]
 BOUNDS = {"quick": dict(n=600, per=6, cap=64), "thorough": dict(n=48000, per=10, cap=128)}
@@ -28,7 +38,16 @@ def plan(tier, seed):
     return simple_plan(PROPERTY, tier, seed, b["n"], b["n"])
 
 
+SUITE = (("dnf",), "M-dnf:judged")
+
+
 def run_shard(spec, res):
+    if spec["tier"] == "thorough" and spec["shard"] == 1:
+        # the repository's own test-suite re-run with the universal monitor M-dnf installed (DESIGN §4): every Nnf / Dnf result
+        # computed by the tests and by the compilers they drive (negative / disjunctive conditions removers) is judged
+        from vk.mon import suite as _suite
+
+        _suite.feed(res, PROPERTY, _suite.run_suite(SUITE[0]), SUITE[1])
     for key in spec["cases"]:
         try:
             run_case(key, spec["tier"], res)
@@ -37,6 +56,11 @@ def run_shard(spec, res):
 
 
 def replay(witness, res):
+    if witness.get("suite"):
+        from vk.mon import suite as _suite
+
+        _suite.replay_suite(res, PROPERTY, SUITE[0], SUITE[1], witness)
+        return
     run_case(witness["case_key"], witness.get("tier", "quick"), res, only=witness.get("index"))
 
 
@@ -214,4 +238,7 @@ def thresholds(m):
     for k, n in (("with_constant_atom", 100), ("with_implies_iff", 100), ("exhaustive_pairs", 100)):
         if c.get(k, 0) < n:
             out.append(f"{k} observed {c.get(k, 0)} < {n}")
+    from vk.mon import suite as _suite
+
+    out.extend(_suite.thresholds(c, SUITE[1], 100))
     return out
